@@ -320,8 +320,8 @@ def staleend_stream(ctx, count, repl="[$1|$2]"):
 
 def grammar_tree_stream(ctx, count, repl=""):
     """pattern texts printed from random trees of the grammar of coq/Proofs/GroupGrammar.v (runs of
-    ordinary characters, quantified characters c? c* c+ and their reluctant forms, alternation,
-    capturing and non-capturing groups, empty branches, any nesting): the domain of the theorems
+    ordinary characters, quantified characters c? c* c+ and their reluctant forms, the anchors ^ $ under
+    XPath, alternation, capturing and non-capturing groups, empty branches, any nesting): the domain of the theorems
     C01_group_grammar_end_to_end / C06_group_grammar_tokenize_end_to_end, on which model = specification
     is proved; here the code is compared with both.  Own generator state."""
     rng = random.Random(ctx.seed * 32452843 + 13)
@@ -341,6 +341,8 @@ def grammar_tree_stream(ctx, count, repl=""):
                 if xpath and rng.random() < 0.4:
                     q += "?"
                 out += run(al) + rng.choice(al) + q
+            elif k < 0.85 and xpath:
+                out += run(al) + rng.choice("^$")
             elif depth > 0:
                 cap = (not xpath) or rng.random() < 0.5
                 out += run(al) + ("(" if cap else "(?:") + alt(depth - 1, al, xpath) + ")"
@@ -355,7 +357,7 @@ def grammar_tree_stream(ctx, count, repl=""):
         al = rng.choice(["ab", "abc", "aAb", ordinary])
         pat = alt(rng.choice([0, 1, 2, 3]), al, d == "xpath")
         fl = rng.choice(["", "", "i", "m", "s", "im"])
-        for inp in gen.inputs_for(rng, al, 4):
+        for inp in gen.inputs_for(rng, al + ("\n" if ("^" in pat or "$" in pat) else ""), 4):
             out.append((d, fl, pat, inp, repl))
     return out
 
